@@ -750,7 +750,7 @@ class Gen(object):
             return '(lambda %s: %s)' % (', '.join(params), body)
         if r < 0.9 and allow_scope:
             # comprehension (merged into the enclosing scope by supp and by CPython 3.12)
-            t = self.special_name()
+            t = self.target(self.special_name())
             it = self.name()
             self.comp_depth += 1
             elt = self.expr(depth, bound, in_class, allow_scope=(depth < self.max_depth and not in_class))
@@ -762,6 +762,31 @@ class Gen(object):
         if r < 0.95 and not in_class:
             return '(%s := %s)' % (self.special_name(), self.name())
         return '%s.attr' % self.name()
+
+    def target(self, x, allow_star=True):
+        """a binding target for x: the plain name, or a tuple / list / starred target that mixes it with
+        subscript and attribute targets (which bind nothing) and other plain names, before and after"""
+        rng = self.rng
+        if rng.random() < 0.6:
+            return x
+        parts = [x]
+        for _ in range(rng.randint(1, 2)):
+            r = rng.random()
+            if r < 0.4:
+                p_ = '%s[0]' % self.name()
+            elif r < 0.7:
+                p_ = '%s.attr' % self.name()
+            elif r < 0.85:
+                p_ = self.special_name()
+            else:
+                p_ = '(%s, %s[%s])' % (self.name(), self.name(), self.name())
+            parts.insert(rng.randint(0, len(parts)), p_)
+        if allow_star and rng.random() < 0.15:
+            i = rng.randrange(len(parts))
+            if not parts[i].startswith('('):
+                parts[i] = '*' + parts[i]
+        form = rng.choice(['%s', '(%s)', '[%s]'])
+        return form % ', '.join(parts)
 
     def emit(self, ind, text):
         self.lines.append('    ' * ind + text)
@@ -830,7 +855,7 @@ class Gen(object):
         x = rng.choice(bindable)
         e = lambda: self.expr(depth, bound, in_class)
         if r < 0.2:
-            self.emit(ind, '%s = %s' % (x, e()))
+            self.emit(ind, '%s = %s' % (self.target(x), e()))
         elif r < 0.3:
             self.emit(ind, '%s(%s)' % (self.name(), e()))
         elif r < 0.5 and depth < self.max_depth:
@@ -861,7 +886,7 @@ class Gen(object):
             m = rng.choice(MODS)
             self.emit(ind, rng.choice(['import %s as %s' % (m, x), 'from %s import path as %s' % (m, x)]))
         elif r < 0.76:
-            self.emit(ind, 'for %s in %s:' % (x, e()))
+            self.emit(ind, 'for %s in %s:' % (self.target(x), e()))
             self.stmt(ind + 1, depth, kind, bound, bindable, in_class)
         elif r < 0.82:
             self.emit(ind, 'if %s:' % e())
@@ -870,7 +895,11 @@ class Gen(object):
                 self.emit(ind, 'else:')
                 self.stmt(ind + 1, depth, kind, bound, bindable, in_class)
         elif r < 0.87:
-            self.emit(ind, 'with %s as %s:' % (e(), x))
+            t = self.target(x, allow_star=False)
+            if rng.random() < 0.3:
+                self.emit(ind, 'with %s as %s, %s as %s:' % (e(), t, e(), self.target(rng.choice(bindable), allow_star=False)))
+            else:
+                self.emit(ind, 'with %s as %s:' % (e(), t))
             self.stmt(ind + 1, depth, kind, bound, bindable, in_class)
         elif r < 0.92:
             self.emit(ind, 'try:')
@@ -1121,6 +1150,10 @@ def load_corpus():
 FINDING_ID = 'K4-C05'
 
 
+def registered(ctx, fid):
+    return any(f.get('id') == fid for f in ctx.open_findings())
+
+
 def check_known(ctx):
     """Open finding K4-C05 (match captures are not bindings for supp): re-run exactly the recorded input;
     KNOWN-FINDING is printed only if that input still fails in the recorded way."""
@@ -1138,7 +1171,10 @@ def check_known(ctx):
     mine = [b for b in bad if (b[0], tuple(b[1])) == want]
     other = [b for b in bad if (b[0], tuple(b[1])) != want]
     ctx.coverage['known_finding_K4_still_fails'] = bool(mine)
-    if mine:
+    if mine and not registered(ctx, FINDING_ID):
+        ctx.violation('%s (not an open entry of known_findings.json): %r' % (FINDING_ID, mine[0]),
+                      {'kind': 'direct', 'source': obj['source'], 'failures': mine})
+    elif mine:
         ctx.known_finding(FINDING_ID, 'a name bound only by a match capture pattern is not a function local for supp: '
                           'read %r at %r resolves to %r, CPython assigns it to %r' % (mine[0][0], mine[0][1], mine[0][2], mine[0][3]))
     if other:
@@ -1167,7 +1203,10 @@ def check_known_k5(ctx):
         return
     still = hit is not None and not hit[1] and obj['read'][0] in hit[0].bound
     ctx.coverage['known_finding_K5_still_fails'] = bool(still)
-    if still:
+    if still and not registered(ctx, 'K5-C05'):
+        ctx.violation('K5-C05 (fixed as F49) fails again: the binding of a walrus under two comprehension levels reaches no flow',
+                      {'kind': 'direct', 'source': obj['source']})
+    elif still:
         ctx.known_finding('K5-C05', 'the binding of a walrus under two comprehension levels reaches no flow: read %r at %r '
                           'has no binding although its scope binds the name' % (obj['read'][0], tuple(obj['read'][1])))
     check_known_k6(ctx)
@@ -1194,7 +1233,10 @@ def check_known_k6(ctx):
         return
     still = hit is not None and hit[2] == GLOB and any(o is hit[0] for o in hit[1])
     ctx.coverage['known_finding_K6_still_fails'] = bool(still)
-    if still:
+    if still and not registered(ctx, 'K6-C05'):
+        ctx.extension_failure('K6-C05 (not an open entry of known_findings.json): comprehension variable offered behind '
+                              'its comprehension', {'kind': 'direct', 'source': obj['source']})
+    elif still:
         ctx.known_finding('K6-C05', 'behind a comprehension its variable is still offered as an alternative owned by the '
                           'enclosing function: read %r at %r resolves to %r, CPython: global' % (
                               obj['read'][0], tuple(obj['read'][1]), sorted(owner_str(o) for o in hit[1])))
